@@ -291,6 +291,16 @@ def r3(ctx):
     rmc = [c for c in ctx.prog.calls_in(w.node) if u(c.func) == "self._remove_existing_phasing"]
     ok = len(setter) == 1 and len(rmc) == 1 and cfg.dominates(cfg.node_containing(rmc[0]), cfg.node_containing(setter[0]))
     ctx.ob(w.qual, "normalisation-dominates-setter", ok, w.loc(setter[0]) if setter else w.loc(), "the removal/normalisation dominates the tag setter" if ok else "the tag setter can run without the removal/normalisation before it")
+    # ... and nothing re-writes GT in another order between the normalisation and the setter: _set_HP lists its items in
+    # GT order and the decoder reads them as a permutation of an ascending GT (Genotype.as_vector() is DEscending)
+    for st_ in util.store_sites(w.node):
+        if st_.kind == "subscript" and util.const_key(st_.target) == "GT" and st_.value is not None:
+            v_ = util.resolve_locals(w.node, st_.value)
+            inner = v_.args[0] if isinstance(v_, ast.Call) and u(v_.func) in ("tuple", "list") and len(v_.args) == 1 else v_
+            asc = isinstance(inner, ast.Call) and u(inner.func) == "sorted" and not any(k.arg == "reverse" for k in inner.keywords)
+            reaches = len(setter) == 1 and cfg.find_path(cfg.node_of(st_.stmt), cfg.node_containing(setter[0])) is not None
+            if reaches:
+                ctx.ob(w.qual, "gt-rewritten-in-ascending-order:%s" % u(st_.value)[:50], asc, w.loc(st_.stmt), "GT is re-written in ascending allele order before the tag setter runs" if asc else "call['GT'] = %s re-writes GT without sorting it (as_vector() is descending, e.g. 1/0): with --tag HP the items written by _set_HP then decode to the opposite phase, and HP and PS outputs disagree" % u(st_.value)[:60])
 
 
 def r4(ctx):
